@@ -1,0 +1,74 @@
+//! Verification hooks. Compiled only with the `verif-hooks` feature; not part of the public API.
+//!
+//! - an allocator indirection: the crate's own `alloc`/`realloc`/`dealloc` requests go through an
+//!   installable function table (the global allocator when none is installed);
+//! - read-only observers of a [`LeanString`]'s storage kind, reference count and last byte;
+//! - the run-time values of the layout constants.
+
+use crate::LeanString;
+use core::alloc::Layout;
+use core::sync::atomic::{AtomicPtr, Ordering};
+
+pub struct AllocTable {
+    pub alloc: unsafe fn(Layout) -> *mut u8,
+    pub dealloc: unsafe fn(*mut u8, Layout),
+    pub realloc: unsafe fn(*mut u8, Layout, usize) -> *mut u8,
+}
+
+static TABLE: AtomicPtr<AllocTable> = AtomicPtr::new(core::ptr::null_mut());
+
+/// Install (or, with `None`, remove) the allocator table.
+pub fn install(table: Option<&'static AllocTable>) {
+    let p = match table {
+        Some(t) => t as *const AllocTable as *mut AllocTable,
+        None => core::ptr::null_mut(),
+    };
+    TABLE.store(p, Ordering::SeqCst);
+}
+
+#[inline]
+fn table() -> Option<&'static AllocTable> {
+    let p = TABLE.load(Ordering::SeqCst);
+    // SAFETY: only `&'static AllocTable` or null is ever stored.
+    if p.is_null() { None } else { Some(unsafe { &*p }) }
+}
+
+pub(crate) unsafe fn alloc(layout: Layout) -> *mut u8 {
+    match table() {
+        Some(t) => unsafe { (t.alloc)(layout) },
+        None => unsafe { alloc::alloc::alloc(layout) },
+    }
+}
+
+pub(crate) unsafe fn dealloc(ptr: *mut u8, layout: Layout) {
+    match table() {
+        Some(t) => unsafe { (t.dealloc)(ptr, layout) },
+        None => unsafe { alloc::alloc::dealloc(ptr, layout) },
+    }
+}
+
+pub(crate) unsafe fn realloc(ptr: *mut u8, layout: Layout, new_size: usize) -> *mut u8 {
+    match table() {
+        Some(t) => unsafe { (t.realloc)(ptr, layout, new_size) },
+        None => unsafe { alloc::alloc::realloc(ptr, layout, new_size) },
+    }
+}
+
+/// 0 = inline, 1 = heap, 2 = static
+pub fn kind(s: &LeanString) -> u8 {
+    s.0.verif_kind()
+}
+
+pub fn ref_count(s: &LeanString) -> Option<usize> {
+    s.0.verif_ref_count()
+}
+
+pub fn last_byte(s: &LeanString) -> u8 {
+    s.0.verif_last_byte()
+}
+
+/// `[MAX_INLINE_SIZE, heap MAX_LEN, size_of::<Header>(), header_offset, static MAX_LENGTH,
+/// static TAG, HeapMarker, MASK_1100_0000]`
+pub fn constants() -> [usize; 8] {
+    crate::repr::Repr::verif_consts()
+}
